@@ -76,6 +76,9 @@ def run(ctx):
     N = ctx.scale(900, 12000)
     for it in range(N):
         r, c = rng.randint(2, 14), rng.randint(2, 14)
+        if it % 40 == 9:
+            r, c = rng.randint(25, 60), rng.randint(25, 60)      # scale-up slice
+            ctx.count("long_series_cases")
         selfcmp = rng.random() < 0.35
         kind = rng.choice(["alpha", "dyadic", "gauss", "mono"])
         s1 = gen.series(rng, r, kind)
